@@ -51,8 +51,33 @@ fn collect<'a>(n: &'a Node, out: &mut Vec<&'a Node>) {
     for c in n.children.iter() { collect(c, out); }
 }
 
+/// container layouts around a definition whose outcome is fixed by CommonMark: (document, expected (href, title) of
+/// the one use `[foo]`, or None when it must stay unresolved)
+const LAYOUTS: &[(&str, Option<(&str, Option<&str>)>)] = &[
+    ("- > [foo]:\n> /url\n\n[foo]", None),                       // the `>` line at the marker column is a NEW quote
+    ("1. > [foo]: /url\n  > (t)\n\n[foo]", Some(("/url", None))),  // ... and cannot supply a title
+    ("- > [foo]: /url\n  > 't'\n\n[foo]", Some(("/url", Some("t")))), // properly indented continuation does
+    ("> [foo]: /url\n> 't'\n\n[foo]", Some(("/url", Some("t")))),
+    ("> [foo]:\n> /url\n\n[foo]", Some(("/url", None))),
+    ("- [foo]:\n  /url\n\n[foo]", Some(("/url", None))),
+    ("- [foo]:\n/url\n\n[foo]", Some(("/url", None))),                // lazy continuation line of the item's paragraph
+    ("> - [foo]: /a\n\n- > [foo]: /b\n\n[foo]", Some(("/a", None))),
+    ("[foo]\n===\n\n[foo]: /url", Some(("/url", None))),
+    ("[foo]\n---\n\n> [foo]: /url 't'", Some(("/url", Some("t")))),
+];
+
 pub fn run(n: usize, rng: &mut Rng, rep: &mut Report) {
     let md = Cfg::stock().build();
+    for (docu, want) in LAYOUTS {
+        let input = format!("src={}", hexs(docu));
+        let tree = match crate::util::guarded(|| md.parse(docu)) { Ok(t) => t, Err(_) => continue };
+        rep.stats.case(&input, true);
+        let mut links = vec![];
+        collect(&tree, &mut links);
+        let got: Vec<(String, Option<String>)> = links.iter().filter_map(|l| l.cast::<Link>().map(|l| (l.url.clone(), l.title.clone()))).collect();
+        let ok = match want { None => got.is_empty(), Some((u, t)) => !got.is_empty() && got.iter().all(|(gu, gt)| gu == u && gt.as_deref() == *t) };
+        if !ok { rep.violation("layout", input, format!("expected {:?}, links found {:?}", want, got)); }
+    }
     for _ in 0..n {
         let fold_row = if rng.chance(2, 3) { Some(rng.pick(&FOLD).clone()) } else { None };
         let off = rng.below(BASES.len());
@@ -77,8 +102,19 @@ pub fn run(n: usize, rng: &mut Rng, rep: &mut Report) {
         let usage = match form { 0 => format!("[text][{}]", ulabel), 1 => format!("[{}][]", ulabel), 2 => format!("[{}]", ulabel), _ => format!("![alt][{}]", ulabel) };
         let use_at = rng.below(defs.len() + 1);
         let mut blocks: Vec<String> = vec![];
-        for (i, (_, d)) in defs.iter().enumerate() { if i == use_at { blocks.push(format!("para {} end", usage)); } blocks.push(d.clone()); }
-        if use_at >= defs.len() { blocks.push(format!("para {} end", usage)); }
+        // the use stands in every kind of text block: paragraph, ATX and setext headings, list item, quote, inside emphasis
+        let use_block = match rng.below(9) {
+            0 => format!("# h {} end", usage),
+            1 => format!("see {} end\n===", usage),
+            2 => format!("see {} end\n---", usage),
+            3 => format!("- item {} end", usage),
+            4 => format!("> quoted {} end", usage),
+            5 => format!("para *em {} em* end", usage),
+            6 => format!("1. > deep {} end", usage),
+            _ => format!("para {} end", usage),
+        };
+        for (i, (_, d)) in defs.iter().enumerate() { if i == use_at { blocks.push(use_block.clone()); } blocks.push(d.clone()); }
+        if use_at >= defs.len() { blocks.push(use_block.clone()); }
         let docu = blocks.join("\n\n");
         let input = format!("src={}", hexs(&docu));
         let tree = match crate::util::guarded(|| md.parse(&docu)) { Ok(t) => t, Err(_) => { rep.stats.count("skipped_panic_C01"); continue; } };
